@@ -58,6 +58,9 @@ class P(MetProp):
             return len(evals) - 1
         kind = rng.choice(["vv", "vv", "vv", "lit", "lit", "lit", "litbool", "set", "set", "set", "vector", "vector", "vlit", "vlit", "nested", "nested", "litchain"])
         by = rng.choice([["app"], ["app"], [], ["nosuch"]]) if not dense else ["app"]
+        if kind == "vector" and rng.random() < 0.6:
+            # an aggregation whose series has no labels - by (), by (a label no record has) - against vector(c), which has none either: they match
+            by = rng.choice([[], ["nosuch"], ["nosuch", "nosuch2"]])
         L = side("l", by, rng.choice([0, 0, 0, S]))
         R = side("r", by if rng.random() < 0.8 else ["app"])
         il, ir = add(L), add(R)
